@@ -48,6 +48,7 @@ void supla_esp_devconn_recv_cb(void *arg, char *pdata, unsigned short len);
 void supla_esp_devconn_iterate(void *timer_arg);
 void supla_esp_devconn_connect_cb(void *arg);
 void supla_esp_devconn_disconnect_cb(void *arg);
+void supla_esp_uptime_init(void);
 
 static int ds_log_gpio = 1, ds_log_wire = 1, ds_log_conn = 1, ds_log_restart = 1, ds_stop_on_restart = 1;
 static int ds_conn_id = 0;               /* incremented at every connect callback */
@@ -151,6 +152,9 @@ static void ds_boot(int start_devconn) {
   strcpy(supla_esp_cfg.WIFI_SSID, "ssid"); strcpy(supla_esp_cfg.WIFI_PWD, "wifipassword");
   for (int i = 0; i < ds_ntime1 && i < CFG_TIME1_COUNT; i++) supla_esp_cfg.Time1[i] = (unsigned)ds_time1[i];
   for (int i = 0; i < ds_ntime2 && i < CFG_TIME2_COUNT; i++) supla_esp_cfg.Time2[i] = (unsigned)ds_time2[i];
+  /* same order as user_init(): uptime counter, countdown timers, gpio, devconn */
+  supla_esp_uptime_init();
+  supla_esp_countdown_timer_init();
   supla_esp_gpio_init();
   supla_esp_devconn_init();
   if (start_devconn) supla_esp_devconn_start();
